@@ -218,6 +218,111 @@ impl Check for C10 {
                 p
             }));
         }
+        // status informations whose TLV data is odd or broken in a way a decoder may trip over: elements
+        // with the three- and four-byte BER length forms, elements cut short inside their container,
+        // empty and zero-length elements, repeated and deeply nested ones - no stall anywhere
+        {
+            let mut raws: Vec<String> = vec![
+                "6083000002430".to_string() + "0",
+                "60830000024300".into(),
+                "6084000000024300".into(),
+                "60054301".into(),
+                "6005430100".into(),
+                "4c830000010a".into(),
+                "4c8400000001aa".into(),
+                "4c81".into(),
+                "4c82".into(),
+                "4c8200".into(),
+                "60".into(),
+                "6000".into(),
+                "60006000600060006000".into(),
+                "600243006002430060024300".into(),
+                "6003430141".into(),
+                "62066004430141".into(),
+                "6281".into(),
+                "1f".into(),
+                "1f4c".into(),
+                "ff".into(),
+                "4c00".into(),
+                "4c07040102030405066003430100".into(),
+                "4c0704010203040506600343".into(),
+                "e10a60830000024300".to_string() + "4c0101",
+            ];
+            for depth in [10usize, 60, 200] {
+                let mut inner = "4c0101".to_string();
+                for _ in 0..depth {
+                    let n = inner.len() / 2;
+                    let len = if n < 128 { format!("{n:02x}") } else if n < 256 { format!("81{n:02x}") } else { format!("82{n:04x}") };
+                    inner = format!("62{len}{inner}");
+                }
+                raws.push(inner);
+            }
+            let n = raws.len() as u64;
+            fams.push(Family::new("odd_and_broken_status_tlv_returns", n * 2, true, move |i, _| {
+                let c = CardKind::RawTlv(raws[(i % n) as usize].clone());
+                let good = CardKind::Card { uid: Some("04a1b2c3d4e5f6".into()), apps: None, nested_apps: None, no_tlv: false };
+                let ops = vec![
+                    OpSpec::ReadCard { card: CardOutcome { pre: (i / n) as u8, kind: c, delay_ms: 0 } },
+                    OpSpec::ReadCard { card: CardOutcome { pre: 0, kind: good, delay_ms: 0 } },
+                ];
+                let mut p = ClientPlan::plain(ops);
+                p.label = "odd_tlv".into();
+                p
+            }));
+        }
+        // transactions_max_num at its extremes (0 - which Feig::default() carries -, 1, usize::MAX ...):
+        // against a healthy, moderately slow terminal every call that is admitted succeeds on the one
+        // connection (no time-out derived from the value collapses to zero) ...
+        fams.push(Family::new("transactions_max_num_extremes_healthy_terminal", 7 * 3 * 2, true, |i, _| {
+            let wide = [0u64, 1, 2, 255, 65_536, u32::MAX as u64, u64::MAX][(i % 7) as usize];
+            let ops = match (i / 7) % 3 {
+                0 => vec![OpSpec::Configure { out: ConfigureOutcome::plain() }],
+                1 => vec![
+                    OpSpec::Begin { token: "A".into(), res: ResOutcome::success() },
+                    OpSpec::Commit { token: "A".into(), amount: 100, rev: RevOutcome::success(), cleanup: CleanupSpec::plain() },
+                ],
+                _ => vec![
+                    OpSpec::Begin { token: "A".into(), res: ResOutcome::success() },
+                    OpSpec::Cancel { token: "A".into(), rev: RevOutcome::success(), cleanup: CleanupSpec::plain() },
+                ],
+            };
+            let mut p = ClientPlan::plain(ops);
+            p.cfg.max_tx_wide = Some(wide);
+            p.pt.pace_ms = if i / 21 == 0 { 0 } else { 9_000 };
+            p.label = "max_tx".into();
+            p
+        }));
+        // ... and a stall at every emission point still ends every call
+        {
+            let ops = vec![
+                OpSpec::Begin { token: "A".into(), res: ResOutcome::success() },
+                OpSpec::Commit { token: "A".into(), amount: 100, rev: RevOutcome::success(), cleanup: CleanupSpec::plain() },
+                OpSpec::Configure { out: ConfigureOutcome::plain() },
+            ];
+            let pts = dry_points(&ops, 1);
+            fams.push(Family::new("transactions_max_num_extremes_x_silence_at_every_point", pts as u64 * 3, true, move |i, _| {
+                let mut p = ClientPlan::plain(ops.clone());
+                p.cfg.max_tx_wide = Some([u64::MAX, 1 << 40, 255][(i % 3) as usize]);
+                p.faults = vec![FaultSpec { conn: 0, point: 1 + (i / 3) as u16, kind: FaultKind::Silence }];
+                p.label = "max_tx_stall".into();
+                p
+            }));
+        }
+        // a terminal (or a bridge in front of it) that closes the connection after every completed
+        // command: every call needs a fresh connection per exchange - and still returns
+        fams.push(Family::new("terminal_closes_after_every_exchange", 5 * 2, true, {
+            let wl = wl.clone();
+            move |i, _| {
+                let mut p = ClientPlan::plain(wl[(i % 5) as usize].clone());
+                p.cfg.max_tx = 2;
+                p.pt.close_after_each_exchange = true;
+                if i / 5 == 1 {
+                    p.faults = vec![FaultSpec { conn: 0, point: 14, kind: FaultKind::Eof }];
+                }
+                p.label = "close_each".into();
+                p
+            }
+        }));
         // connects that never complete, from the start / after k good ones
         fams.push(Family::new("connect_never_completes", 5 * 6, true, {
             let wl = wl.clone();
@@ -330,6 +435,25 @@ impl Check for C10 {
         if plan.label == "tau" {
             judge_no_collapse(plan, &run, &mut out);
         }
+        if plan.label == "max_tx" {
+            // nothing is wrong with the terminal: what the configuration admits succeeds, at the first attempt
+            let admitted = plan.cfg.max_tx_wide.unwrap_or(1) >= 1;
+            for o in run.ops.iter().filter(|o| o.index >= 0) {
+                let is_tx = !matches!(plan.ops[o.index as usize], OpSpec::Configure { .. });
+                if matches!(o.result, OpResult::Panic { .. } | OpResult::Hang) || (is_tx && !admitted) {
+                    continue;
+                }
+                if !o.result.is_ok() || run.conns.len() != 1 {
+                    out.fail(
+                        "timeout_collapsed",
+                        format!("max_tx/{}", o.name),
+                        format!("transactions_max_num = {:?}, healthy terminal (every packet {} ms late): {} returned {} and {} connection(s) were opened", plan.cfg.max_tx_wide, plan.pt.pace_ms, o.name, o.result.class(), run.conns.len()),
+                    );
+                    break;
+                }
+            }
+            out.stats.hit("probe.no_collapse_checked");
+        }
         run.add_stats(&mut out.stats);
         out.trace_hash = run.trace_hash();
         let mut h = crate::rng::Hasher64::default();
@@ -342,7 +466,7 @@ impl Check for C10 {
             h.bytes(plan.cfg.terminal_id.as_bytes());
         }
         out.shape = h.finish();
-        out.nontrivial = !plan.faults.is_empty() || !plan.connects.is_empty() || plan.label == "tau" || plan.label == "beyond_range" || plan.label == "cards";
+        out.nontrivial = !plan.faults.is_empty() || !plan.connects.is_empty() || plan.label == "tau" || plan.label == "beyond_range" || plan.label == "cards" || plan.label.starts_with("max_tx") || plan.label == "close_each" || plan.label == "odd_tlv";
         if want_trace {
             out.trace = run.trace();
         }
